@@ -10,6 +10,7 @@ import Knee.Model.Geometry
 import Knee.Model.Hull
 import Knee.Model.GlobalCost
 import Knee.Model.ClusterFilter
+import Knee.Model.EvenPoints
 /-
 Correspondence driver.  `lake env lean --run Driver.lean` (or the compiled `driver` exe).
 Harness → driver : `CALL <fn> <arg> <arg> …`
@@ -318,6 +319,27 @@ def dispatch (out inp : IO.FS.Stream) (fn : String) (args : List String) : M Str
     let labels ← orErr (parseList? parseNat? labels) "labels"
     let knees ← orErr (parseList? parseNat? knees) "knees"
     pure (";".intercalate ((groupByLabels labels knees).map showNats))
+  | "add_even", [n, hs, red, rem, knees, wide, npts, ext] =>
+    let n ← orErr (parseNat? n) "n"
+    let hs ← orErr (parseList? parseRat? hs) "heights"
+    let red ← orErr (parseList? parseNat? red) "reduced"
+    let rem ← orErr (parseList? (parsePair? parseNat? parseNat?) rem) "removed"
+    let knees ← orErr (parseList? parseNat? knees) "knees"
+    let wide ← orErr (parseList? parseNat? wide) "wide"
+    let npts ← orErr (parseList? parseNat? npts) "npts"
+    pure (showNats (addEven (fun k => hs[k]?.getD 0) n red rem knees (fun i => wide[i]?.getD 0 == 1) (fun i => npts[i]?.getD 1) (ext == "1")))
+  | "add_even_knees", [n, hs, knees, wide, npts, ext] =>
+    let n ← orErr (parseNat? n) "n"
+    let hs ← orErr (parseList? parseRat? hs) "heights"
+    let knees ← orErr (parseList? parseNat? knees) "knees"
+    let wide ← orErr (parseList? parseNat? wide) "wide"
+    let npts ← orErr (parseList? parseNat? npts) "npts"
+    pure (showNats (addEvenKnees (fun k => hs[k]?.getD 0) n knees (fun i => wide[i]?.getD 0 == 1) (fun i => npts[i]?.getD 1) (ext == "1")))
+  | "evenQ", [xl, yl, xr, yr, dx, dy, tx, ty] =>
+    let v ← orErr ([xl, yl, xr, yr, dx, dy, tx, ty].mapM parseRat?) "args"
+    match v with
+    | [xl, yl, xr, yr, dx, dy, tx, ty] => pure ((if wideQ xl yl xr yr dx dy tx ty then "1" else "0") ++ " " ++ toString (nptsQ xl xr dx tx))
+    | _ => throw "args"
   | _, _ => throw s!"unknown call {fn}/{args.length}"
 
 partial def loop (out inp : IO.FS.Stream) : IO Unit := do
